@@ -64,7 +64,8 @@ class C16(Engine):
     rule = ("run i = one forked naken_asm lifetime (real main(), ASan+UBSan) on a seeded SimFs workspace: corpus-based "
             "program for a seeded CPU wrapped in macros/.if/.repeat/.include/.binfile, plus 1-3 stressors drawn from "
             "%d kinds (stream cut/EIO at swept offsets, vanished/recursive/directory includes, FD limits, damaged .o/.a "
-            "arguments, buffer-boundary token lengths, deep nesting, extreme addresses, raw bytes, option sets). "
+            "arguments, buffer-boundary token lengths, deep nesting, extreme addresses, raw bytes, option sets, every directive between the statements); the first run indices after the stressor cells "
+            "assemble every corpus instruction with a literal and every table mnemonic once with a boundary / extreme literal. "
             "Distinct = distinct seam-event hash (sequence of fopen/read/write/seek/close/unlink/exit events with sizes "
             "and outcomes); non-trivial = at least one injected fault actually fired in the run." % len(STRESSORS))
     assumptions = ["allocation failure is never injected (the statement does not quantify over OOM)",
